@@ -32,6 +32,11 @@ struct Case {
     currency_code: Option<&'static str>,
     /// the end-of-day that follows the commit reports the day's totals in status informations
     eod_totals: bool,
+    /// Some((first has a receipt number, last has one, connection lost in between)): the terminal
+    /// reports twice during the commit, first other values, last the case's values. With `lost` the
+    /// first report belongs to an attempt whose connection breaks before the completion and the
+    /// last to the re-sent command. What the terminal reported is its last report.
+    two_reports: Option<(bool, bool, bool)>,
 }
 
 fn run_case(c: &Case, acc: &mut Acc) -> Vec<String> {
@@ -60,6 +65,27 @@ fn run_case(c: &Case, acc: &mut Acc) -> Vec<String> {
                     if let Some(v) = v {
                         f.push((n, Val::Int(v)));
                     }
+                }
+                if let Some((first_rc, last_rc, lost)) = cc.two_reports {
+                    let mut g: Vec<(&str, Val)> = vec![("result_code", Val::Int(0))];
+                    for (n, v) in [("amount", cc.amount.map(|v| v + 1205).or(Some(7))), ("trace_number", cc.trace.map(|v| v + 1).or(Some(8))), ("date", Some(1231)), ("time", Some(235_959)), ("terminal_id", Some(11_111_111))] {
+                        if let Some(v) = v {
+                            g.push((n, Val::Int(v)));
+                        }
+                    }
+                    if first_rc {
+                        g.push(("receipt_no", Val::Int(cc.receipt)));
+                    }
+                    if last_rc {
+                        f.push(("receipt_no", Val::Int(cc.receipt)));
+                    }
+                    if lost && nth == 0 {
+                        return Some(vec![r.ack(), r.intermediate(0x17), r.status(&g, "status-first-attempt"), Step::Close]);
+                    }
+                    if lost {
+                        return Some(vec![r.ack(), r.intermediate(0x17), r.status(&f, "status"), r.completion()]);
+                    }
+                    return Some(vec![r.ack(), r.intermediate(0x17), r.status(&g, "status-earlier"), r.intermediate(0x17), r.status(&f, "status"), r.completion()]);
                 }
                 Some(vec![r.ack(), r.intermediate(0x17), r.status(&f, "status"), r.completion()])
             }
@@ -169,7 +195,7 @@ fn run_case(c: &Case, acc: &mut Acc) -> Vec<String> {
 pub fn run(run: &RunInfo) -> Summary {
     let thorough = run.thorough();
     let mut cases: Vec<Case> = vec![];
-    let base = Case { pre: 2500, fin: 0, currency: 978, token: "384HH2".into(), receipt: 231, amount: Some(1295), trace: Some(975), date: Some(405), time: Some(225558), terminal_id: Some(52523535), lost_first_receipt: None, currency_code: None, eod_totals: false };
+    let base = Case { pre: 2500, fin: 0, currency: 978, token: "384HH2".into(), receipt: 231, amount: Some(1295), trace: Some(975), date: Some(405), time: Some(225558), terminal_id: Some(52523535), lost_first_receipt: None, currency_code: None, eod_totals: false, two_reports: None };
     // all small pairs and the boundary grid
     let mut pres: Vec<u64> = (0..=24).collect();
     pres.extend([2500, 1_000_000, 999_999_999_999]);
@@ -192,6 +218,18 @@ pub fn run(run: &RunInfo) -> Summary {
     for (code, num) in [("EUR", 978u64), ("GBP", 826), ("SEK", 752), ("eur", 978), ("Gbp", 826), ("sek", 752), ("CHF", 756), ("USD", 840), ("NOK", 578), ("DKK", 208), ("PLN", 985), ("CZK", 203)] {
         for (pre, fin) in [(2500u64, 1295u64), (0, 0)] {
             cases.push(Case { pre, fin, currency: num, currency_code: Some(code), ..base.clone() });
+        }
+    }
+    // the terminal reports twice during the commit (in one exchange, or once on an attempt that loses
+    // its connection and once on the re-sent command), with and without a receipt number in either
+    for first_rc in [false, true] {
+        for last_rc in [false, true] {
+            for lost in [false, true] {
+                for (a, tr) in [(Some(1295u64), Some(975u64)), (None, None), (Some(0), Some(0))] {
+                    cases.push(Case { amount: a, trace: tr, two_reports: Some((first_rc, last_rc, lost)), ..base.clone() });
+                    cases.push(Case { fin: 1295, amount: a, trace: tr, terminal_id: None, date: None, two_reports: Some((first_rc, last_rc, lost)), ..base.clone() });
+                }
+            }
         }
     }
     // the end-of-day that follows the commit reports totals of its own: the summary is the commit's
@@ -236,7 +274,7 @@ pub fn run(run: &RunInfo) -> Summary {
     }
     let mut acc = par_for(cases.len(), |ix, acc| {
         let c = &cases[ix];
-        let key = format!("c08/pre={}/final={}/cur={}{}{}/token={:?}/receipt={}/lost-first={:?}/status={:?},{:?},{:?},{:?},{:?}", c.pre, c.fin, c.currency, c.currency_code.map(|x| format!("(configured as {x:?})")).unwrap_or_default(), if c.eod_totals { "/end-of-day-reports-totals" } else { "" }, c.token, c.receipt, c.lost_first_receipt, c.amount, c.trace, c.date, c.time, c.terminal_id);
+        let key = format!("c08/pre={}/final={}/cur={}{}{}/token={:?}/receipt={}/lost-first={:?}/status={:?},{:?},{:?},{:?},{:?}", c.pre, c.fin, c.currency, c.currency_code.map(|x| format!("(configured as {x:?})")).unwrap_or_default(), format!("{}{}", if c.eod_totals { "/end-of-day-reports-totals" } else { "" }, c.two_reports.map(|t| format!("/two-reports={t:?}")).unwrap_or_default()), c.token, c.receipt, c.lost_first_receipt, c.amount, c.trace, c.date, c.time, c.terminal_id);
         if skip_for_replay(run, &key) {
             return;
         }
@@ -271,10 +309,10 @@ pub fn run(run: &RunInfo) -> Summary {
         transitions: acc.get("transitions"),
         traces_validated: execs,
         distinct_nontrivial: acc.set_len("cases"),
-        rule: "real Feig client (begin; commit) against the simulated terminal for: all pairs pre-authorisation 0..=24 x final 0..=26 and the boundary grid pre in {2500, 10^6, 10^12-1} x final in {pre-1, pre, pre+1, 2 pre, 2^32, 2^63-1, 2^63, 2^63+1, 2^63+pre, u64::MAX-10^6, u64::MAX-1, u64::MAX} x currencies {752, 826, 978}; 13 tokens (incl. empty, upper CP437 half, blanks / tabs / no-break space at either end, mixed case, leading zeros) x receipt numbers {1, 231, 9999}; configurations parsed from JSON with the alphabetic ISO 4217 code in any letter case (12 spellings; codes this version does not accept are skipped) against a pinned excerpt of the standard; commits whose end-of-day reports the day's totals in status informations of its own; reservations repeated after a lost connection with the first attempt's receipt number above, below and equal to the final one; the product of the alphabets of the five reported status fields incl. absent and leading-zero values. Requests are decoded by the reference codec and compared with the reference model; the summary with the reported values".into(),
+        rule: "real Feig client (begin; commit) against the simulated terminal for: all pairs pre-authorisation 0..=24 x final 0..=26 and the boundary grid pre in {2500, 10^6, 10^12-1} x final in {pre-1, pre, pre+1, 2 pre, 2^32, 2^63-1, 2^63, 2^63+1, 2^63+pre, u64::MAX-10^6, u64::MAX-1, u64::MAX} x currencies {752, 826, 978}; 13 tokens (incl. empty, upper CP437 half, blanks / tabs / no-break space at either end, mixed case, leading zeros) x receipt numbers {1, 231, 9999}; configurations parsed from JSON with the alphabetic ISO 4217 code in any letter case (12 spellings; codes this version does not accept are skipped) against a pinned excerpt of the standard; commits whose end-of-day reports the day's totals in status informations of its own; reservations repeated after a lost connection with the first attempt's receipt number above, below and equal to the final one; the product of the alphabets of the five reported status fields incl. absent and leading-zero values; commits during which the terminal reports twice (in one exchange, or on an attempt that loses its connection and on the re-sent command) with / without a receipt number in either report: the summary is the last report. Requests are decoded by the reference codec and compared with the reference model; the summary with the reported values".into(),
         exhaustive: true,
         required_witnesses: vec!["final amount above the pre-authorisation (release must be zero)".into(), "final amount at and above 2^63".into(), "a configuration written with the alphabetic currency code was used".into()],
-        assumptions: vec!["pre-authorisation amounts >= 10^12 do not fit the 12-digit field and are outside the domain".into(), "the textual padding of the terminal id is not fixed by the statement (compared numerically)".into()],
+        assumptions: vec!["pre-authorisation amounts >= 10^12 do not fit the 12-digit field and are outside the domain".into(), "the textual padding of the terminal id is not fixed by the statement (compared numerically)".into(), "where the terminal reports more than once during a commit, 'what the terminal reported' is read as its last report (the only reading under which the sentence defines one summary)".into()],
         bounds: json!({"cases": cases.len()}),
         caps_hit: vec![],
         evaluations_counter: "evaluations".into(),
